@@ -2,13 +2,14 @@
 # usage: [MUT_REPO=<scratch worktree>] mut_eval.sh <patch.diff> <tier> <check ids...>
 # Applies the patch to /repo (or to the scratch worktree named by MUT_REPO, leaving /repo alone),
 # runs the listed checks, always reverts. Prints one line per check.
-patch=$1; tier=$2; shift 2
+HERE="$(dirname "$(readlink -f "$0")")"
+patch=$(readlink -f "$1"); tier=$2; shift 2
 R=${MUT_REPO:-/repo}
 cd "$R" || exit 2
 if ! git diff --quiet; then echo "$R dirty, refusing"; exit 2; fi
 trap 'git -C "$R" checkout -- . ; git -C "$R" clean -fdq src' EXIT
 git apply "$patch" || { echo "patch does not apply"; exit 2; }
-cd "$(dirname "$(readlink -f "$0")")"
+cd "$HERE"
 [ -n "$MUT_REPO" ] && export VERIF_REPO=$MUT_REPO
 for id in "$@"; do
   s=$(date +%s)
